@@ -493,3 +493,8 @@ pub fn base_submsg(extra: &Value) -> cw::SubMsg<Empty> {
 pub fn jdbg<T: Debug>(t: &T) -> String {
     serde_json::to_string(&format!("{:?}", t)).unwrap()
 }
+
+/// serde_json rendering (for schemars schemas etc.)
+pub fn sj<T: Serialize>(t: &T) -> Value {
+    serde_json::to_value(t).unwrap_or_else(|e| Value::String(format!("!ser:{}", e)))
+}
